@@ -39,6 +39,9 @@ type ReqSpec struct {
 	Accept   []string  `json:"accept"`    // Accept header lines (nil = header absent)
 	Body     string    `json:"body"`
 	Label    BodyLabel `json:"label"`
+	// Inject, when non-nil, is a list of error Status texts that replaces the router's answer (verif
+	// hook, inject_hook.go): the request then only exercises the response-writing half of ServeHTTP.
+	Inject *[]string `json:"inject,omitempty"`
 	// generator annotations (for the distribution only)
 	AcceptKind string `json:"accept_kind,omitempty"`
 	QueryKind  string `json:"query_kind,omitempty"`
@@ -85,6 +88,13 @@ func (q *ReqSpec) acceptInstances() []acceptInst {
 
 // sexp is the abstract request sent to the model.
 func (q *ReqSpec) sexp() hx.Sexp {
+	if q.Inject != nil {
+		var sts []hx.Sexp
+		for _, s := range *q.Inject {
+			sts = append(sts, stSexp(s))
+		}
+		return hx.N("inject", sts...)
+	}
 	var comps, acc, keys []hx.Sexp
 	for _, c := range q.components() {
 		comps = append(comps, hx.A(c))
@@ -140,6 +150,9 @@ func serve(schema *jsonapi.Schema, q *ReqSpec) (out Real) {
 	}
 	for _, a := range q.Accept {
 		req.Header.Add("Accept", a)
+	}
+	if q.Inject != nil {
+		req = withInjection(req, *q.Inject)
 	}
 	rec := httptest.NewRecorder()
 	defer func() {
